@@ -26,7 +26,8 @@ MANIFEST_ENTRY = {
     "note": "trusted: Lean kernel; Model/LR.lean, Model/Lex.lean are hand-written from parser.py and validated by "
             "correspondence; recognizers and layout skipping enter as data (match table, skip table computed by the "
             "real code); the theorem's side conditions on the decoded data (table empty beyond its n states, matches "
-            "inside the text) hold by construction of the decoder and are not re-checked; uniqueness of the parse "
+            "inside the text) are theorems about the driver's decoder (Model/Decode.lean, "
+            "C04_exact_on_decoded_data); uniqueness of the parse "
             "tree and equality with GLR's tree are oracle comparisons",
     "technique": "Lean 4 proof (stack invariant + walk-back lemma; completeness by validation + simulation) + verified "
                  "checkers and validators on implementation output + model/implementation correspondence",
@@ -36,7 +37,7 @@ PROP = "C04"
 LEVEL = "proof"
 THEOREMS = ["C04_sound", "C04_sound_prefix", "C04_tree_checker_correct", "C04_sentence_oracle_correct",
             "C04_lookahead_is_token_edge",
-            "C04_complete_when_deterministic", "C04_exact_when_deterministic", "det_complete", "detOK_of_bool"]
+            "C04_complete_when_deterministic", "C04_exact_when_deterministic", "det_complete", "detOK_of_bool", "C04_exact_on_decoded_data"]
 META = {
     "rule": "cases = (grammar, prefer_shifts, prefer_shifts_over_empty, LALR|SLR, input incl. layout variants) for "
             "which Parser() constructs; non-trivial = accepted input with a tree of >= 2 interior nodes, or a "
